@@ -289,13 +289,24 @@ def check_captured(case, shard, cap):
     ts = case["test_stat"]
     mu_call = 0.0 if ts == "q0" else case["mu"]
     base = case.get("base", "normal")
+    hkw = {}
+    if case.get("fix_nuisance") is not None and case["fix_nuisance"] < model.config.npars and case["fix_nuisance"] != model.config.poi_index:
+        # the caller holds one nuisance parameter constant at a value of their own: every fit of the test, the one behind
+        # the Asimov dataset included, must respect it
+        fi = case["fix_nuisance"]
+        init_c, fixed_c = list(model.config.suggested_init()), list(model.config.suggested_fixed())
+        lo_, hi_ = model.config.suggested_bounds()[fi]
+        init_c[fi] = float(min(max(init_c[fi] + 0.35, lo_), hi_))
+        fixed_c[fi] = True
+        hkw = {"init_pars": init_c, "fixed_params": fixed_c}
+        shard.covered("caller_settings", "a nuisance held constant through fixed_params")
     try:
         if case.get("previous_data"):
             # the same model object has already served a test of OTHER data: nothing of it may be remembered
             pyhf.infer.hypotest(mu_call, list(case["previous_data"]) + list(model.config.auxdata), model, test_stat=ts, calc_base_dist=base)
             shard.covered("model_reuse", "second dataset tested on the same model object")
         cap.events.clear()
-        res = pyhf.infer.hypotest(mu_call, data, model, test_stat=ts, calc_base_dist=base, return_tail_probs=True, return_expected_set=True)
+        res = pyhf.infer.hypotest(mu_call, data, model, test_stat=ts, calc_base_dist=base, return_tail_probs=True, return_expected_set=True, **hkw)
     except E.FailedMinimization:
         shard.skip("fit reported failure")
         return
@@ -308,7 +319,7 @@ def check_captured(case, shard, cap):
     # THIS data conditional on the Asimov hypothesis (recomputed here through the public fit)
     amu = 1.0 if ts == "q0" else 0.0
     try:
-        apars = pyhf.infer.mle.fixed_poi_fit(amu, data, model)
+        apars = pyhf.infer.mle.fixed_poi_fit(amu, data, model, hkw.get("init_pars"), None, hkw.get("fixed_params"))
         want = [float(x) for x in to_np(model.expected_data(apars))]
         used = stats[1][4]
         if used is None or len(used) != len(want) or any(abs(a - b) > 1e-6 * abs(b) + 1e-9 for a, b in zip(used, want)):
@@ -382,6 +393,10 @@ def make_generated(rng, backend):
             "base": rng.choice(["normal", "clipped_normal"]), "backend": backend}
     if rng.random() < 0.5:
         case["previous_data"] = [float(gen.poisson_draw(rng, x * rng.choice([0.7, 1.4]))) for x in rates]
+    if rng.random() < 0.35:
+        free = [i for i, f in enumerate(model.config.suggested_fixed()) if not f and i != model.config.poi_index]
+        if free:
+            case["fix_nuisance"] = rng.choice(free)
     return case
 
 
